@@ -457,3 +457,29 @@ def fam_fresh(rnd: random.Random, ncalls: int = 2, ninputs: int = 6):
                 meta={"fresh": meta})
     inputs = [{"cd0": 0} for _ in range(ninputs)]
     return prog, inputs
+
+
+def etch_probe(branch: bool = False):
+    """vm.etch(E, probe) on an address E that does not exist yet; vm.store(E, 0, cd0); E.call() - the probe returns TLOAD(0),
+    then TSTORE(0, 7), then SLOAD(0); vm.load(E, 0).  The account's persistent and transient storage are two things: the
+    reads are 0, cd0, cd0.  With `branch`, a symbolic branch sits between the etch and the store."""
+    E = 0xE7C4ED
+    probe = assemble([("PUSH", 0), "TLOAD", ("PUSH", 0), "MSTORE", ("PUSH", 7), ("PUSH", 0), "TSTORE", ("PUSH", 0), "SLOAD", ("PUSH", 32), "MSTORE",
+                      ("PUSH", 64), ("PUSH", 0), "RETURN"])
+    # etch(address,bytes): selector, who, offset 0x40, length, code bytes
+    body = put_selector("etch(address,bytes)")
+    body += [("PUSH", E), ("PUSH", BUF + 4), "MSTORE", ("PUSH", 0x40), ("PUSH", BUF + 36), "MSTORE", ("PUSH", len(probe)), ("PUSH", BUF + 68), "MSTORE"]
+    for k in range(0, len(probe), 32):
+        chunk = probe[k : k + 32].ljust(32, b"\0")
+        body += [("PUSHN", 32, int.from_bytes(chunk, "big")), ("PUSH", BUF + 100 + k), "MSTORE"]
+    body += call_cheat(HEVM, 100 + 32 * ((len(probe) + 31) // 32)) + ["POP"]
+    if branch:
+        body += [("PUSH", 32), "CALLDATALOAD", ("PUSH", 1), "AND", ("PUSHL", "eb"), "JUMPI", ("PUSH", 1), ("PUSH", 0x7F0), "MSTORE", ("LABEL", "eb")]
+    body += cheat("store(address,bytes32,bytes32)", [[("PUSH", E)], [("PUSH", 0)], cd(0)])
+    body += [("PUSH", 64), ("PUSH", 0x1000), ("PUSH", 0), ("PUSH", 0), ("PUSH", 0), ("PUSH", E), ("PUSH", GAS), "CALL", "POP"]
+    body += cheat("load(address,bytes32)", [[("PUSH", E)], [("PUSH", 0)]], ret_words=1)
+    body += [("PUSH", RETBUF), "MLOAD", ("PUSH", 0x1040), "MSTORE", ("PUSH", 96), ("PUSH", 0x1000), "RETURN"]
+    names = ["cd0", "cd1", "cd2"]
+    prog = Prog(accounts={TARGET: assemble(body)}, calldata=[Sym(nm, 256) for nm in names], name="etch-fresh-account" + ("-branch" if branch else ""), meta={})
+    inputs = [{"cd0": 42, "cd1": 0, "cd2": 0}, {"cd0": 0, "cd1": 1, "cd2": 0}, {"cd0": M256 - 1, "cd1": 2, "cd2": 0}, {"cd0": 7, "cd1": 3, "cd2": 0}]
+    return prog, inputs
